@@ -121,8 +121,12 @@ def gen_project(r, impl, legacy=False, max_files=5, allow_mixed=True, n_files=No
         while occs:
             p = occs.pop()
             segs = [Seg("text", r.choice(["", "  ", "prefix ", "// "])), Seg("occ", p)]
-            if occs and r.random() < 0.3 and occs[-1] != p:
-                segs += [Seg("text", r.choice([" -- ", " ", "; ", "\t"])), Seg("occ", occs.pop())]
+            on_line = [p]
+            # up to four different patterns share the line (at most one occurrence per pattern per line), in any order of configuration
+            while occs and r.random() < (0.3 if len(on_line) == 1 else 0.6) and occs[-1] not in on_line and len(on_line) < 4:
+                q_ = occs.pop()
+                on_line.append(q_)
+                segs += [Seg("text", r.choice([" -- ", " ", "; ", "\t", " | "])), Seg("occ", q_)]
             if allow_dup and r.random() < 0.35:
                 segs += [Seg("text", r.choice(["  # was: ", " | ", " and again "])), Seg("dup", p)]
             segs.append(Seg("text", r.choice(["", "", " # trailing", " ."])))
@@ -150,6 +154,45 @@ def gen_project(r, impl, legacy=False, max_files=5, allow_mixed=True, n_files=No
     return dict(vp=vp, flags=list(flags), old=old, files=files, date=d, legacy=legacy, cfg_prefix=r.choice(CFG_PREFIXES), key_comment=r.random() < 0.25, dot_slash=r.random() < 0.5)
 
 
+def scripted_specs():
+    """Hand-built projects that run before the generated ones: layouts found by reading seeded changes that the random
+    generator reaches only rarely."""
+    import datetime as dt
+
+    def mk(path, pats, lines, term="\n", final_newline=True):
+        fs = FileSpec(path, pats)
+        for j, segs in enumerate(lines):
+            fs.lines.append((segs, "" if (j == len(lines) - 1 and not final_newline) else term))
+        return fs
+    T, O = (lambda x: Seg("text", x)), (lambda i: Seg("occ", i))
+    base = dict(legacy=False, date=dt.date(2024, 5, 1), cfg_prefix="", key_comment=False, dot_slash=False)
+    out = []
+    # three patterns on one line, the occurrence of the LAST configured pattern between the two others; that pattern also matches elsewhere
+    out.append(dict(base, vp="MAJOR.MINOR.PATCH", old="1.2.3", flags=["--patch"], files=[
+        mk("notes.txt", ["mypkg v{version}", "released as {version};", "mypkg=={pep440_version}"],
+           [[T("intro")], [O(0), T(" | pip install "), O(2), T(" | "), O(1), T(" ACME")], [T("requirements: "), O(2)], [T("end")]])]))
+    # two patterns on one line, listed left to right, the left replacement grows (1.9.0 -> 1.10.0); CRLF, non-ASCII, no final newline
+    out.append(dict(base, vp="MAJOR.MINOR.PATCH", old="1.9.0", flags=["--minor"], files=[
+        mk("README.md", ["badge/version-{version}-blue", "download/v{version}/pkg"],
+           [[T("# Project")], [T("")], [T("[![v](https://img.example/"), O(0), T(")](https://example.org/"), O(1), T(".tgz) <- latest \u2713")], [T("no newline at end")]],
+           term="\r\n", final_newline=False)]))
+    # decomposed (non-NFC) characters to the left of an occurrence, and on unmatched lines
+    out.append(dict(base, vp="MAJOR.MINOR.PATCH", old="1.2.3", flags=["--patch"], files=[
+        mk("about.txt", ["release {version} (stable)"],
+           [[T("Notes")], [T("Cafe\u0301 Mu\u0308nch toolkit, "), O(0), T(" e\u0301")], [T("composed twin: Caf\u00e9 M\u00fcnch; decomposed: A\u030a")]])]))
+    # the config file is pyproject.toml and a file of the same NAME in another directory is listed (the config itself is not)
+    out.append(dict(base, vp="MAJOR.MINOR.PATCH", old="1.2.3", flags=["--patch"], fmt="pyproject.toml", files=[
+        mk("packages/core/pyproject.toml", ['version = "{version}"'], [[T("[project]")], [O(0)], [T('name = "core"')]])]))
+    # a form feed / vertical tab / U+2028 right next to the version line (inside the context of the printed diff)
+    out.append(dict(base, vp="MAJOR.MINOR.PATCH", old="1.2.3", flags=["--patch"], files=[
+        mk("mod.py", ['__version__ = "{version}"'],
+           [[T("# header")], [T("\x0c")], [O(0), T("  # page break above\x0b and a vertical tab here")], [T("x = 1 \u2028 y = 2")], [T("last")]])]))
+    # a version file that consists of nothing but the version, without a final newline
+    out.append(dict(base, vp="MAJOR.MINOR.PATCH", old="1.4.2", flags=["--patch"], files=[
+        mk("VERSION", ["{version}"], [[O(0)]], final_newline=False)]))
+    return out
+
+
 def to_temp_project(project, spec, **kw):
     """Build a TempProject from a generated spec."""
     import os
@@ -169,6 +212,8 @@ def to_temp_project(project, spec, **kw):
             files[fs.path] = list(fs.patterns)
     kw.setdefault("cfg_prefix", spec.get("cfg_prefix", "").format(q='"'))
     kw.setdefault("key_comment", spec.get("key_comment", False))
+    if spec.get("fmt"):
+        kw.setdefault("fmt", spec["fmt"])
     prj = project.TempProject(version_pattern=spec["vp"], current_version=spec["old"], files=files, **kw)
     return prj
 
